@@ -505,6 +505,22 @@ func (wd *World) runOp(op Op) {
 		c.Str = w.Status()
 		if q := wd.queue(op.Q); q != nil {
 			n += q.nump()
+			if q.rq != nil && wd.cfg.Prop == "C19" {
+				// a user-supplied queue may look at the items it holds (or held) from its own
+				// goroutines through the public Job interface: ID and Data are read-only there
+				k := 0
+				for _, it := range q.rq.seenItems() {
+					if d, ok := it.(interface {
+						Data() int
+						ID() string
+					}); ok {
+						n += d.Data() + len(d.ID())
+					}
+					if k++; k >= 3 {
+						break
+					}
+				}
+			}
 		}
 		c.Val = n
 		r.end(c)
